@@ -438,7 +438,7 @@ class GetSize(Harness):
 def harnesses(tier):
     hs = [Hist(3), CountPairs(2, True), CountPairs(2, False), LoadPatchesOrder(3), GetSize(), RealPoolHistory()]
     if tier == "thorough":
-        hs += [Hist(4), LoadPatchesOrder(4), CountPairs(3, True)]
+        hs += [Hist(4), Hist(5), LoadPatchesOrder(4), LoadPatchesOrder(5), CountPairs(3, True)]
     hs += [Hist(2, wrong="reach")]
     return hs
 
